@@ -47,28 +47,123 @@ PROPS["C16"] = {
                "Debug/Display formatting; PolymorphicString over other allocators",
     "assumptions": ["element drop order inside one operation is not compared, only exactly-once"],
     "harnesses": [
-        H("c16::c16_static_vec_history", covers=2, timeout=1200, mem_gb=6, tiers=("quick",),
-          what="StaticVec<Tracked,2>: push/pop/insert/remove/truncate/clear/extend_from_slice/resize_with vs model; drops",
-          bounds="unwind 22; CAP 2, 4 steps"),
-        H("c16::c16_static_vec_history_deep", covers=2, timeout=3600, mem_gb=12, tiers=("thorough",),
-          what="StaticVec<Tracked,3>, 6 steps", bounds="unwind 22; CAP 3, 6 steps"),
-        H("c16::c16_relocatable_vec_history", covers=2, timeout=1200, mem_gb=6, tiers=("quick",),
-          what="RelocatableVec<Tracked> over a bump allocator in the same block", bounds="unwind 22; CAP 2, 4 steps"),
-        H("c16::c16_relocatable_vec_history_deep", covers=2, timeout=3600, mem_gb=12, tiers=("thorough",),
-          what="RelocatableVec<Tracked>, CAP 3, 6 steps", bounds="unwind 22; CAP 3, 6 steps"),
-        H("c16::c16_polymorphic_vec_history", covers=2, timeout=1200, mem_gb=6, tiers=("quick",),
-          what="PolymorphicVec<Tracked> over the bb pool allocator incl. try_clone and memory give-back",
-          bounds="unwind 22; CAP 2, 3 steps"),
-        H("c16::c16_polymorphic_vec_history_deep", covers=2, timeout=3600, mem_gb=12, tiers=("thorough",),
-          what="PolymorphicVec<Tracked>, CAP 3, 5 steps", bounds="unwind 22; CAP 3, 5 steps"),
+        H("c16::c16_static_vec_history_a", covers=2, timeout=1500, mem_gb=8, tiers=("quick",),
+          what="StaticVec<Tracked,N>: symbolic history of push/pop/insert/remove vs model; exactly-once drops",
+          bounds="unwind 9; CAP 2"),
+        H("c16::c16_static_vec_history_b", covers=2, timeout=1500, mem_gb=8, tiers=("quick",),
+          what="StaticVec<Tracked,N>: symbolic history of push/truncate/clear/extend_from_slice/resize_with vs model; drops",
+          bounds="unwind 9; CAP 2"),
+        H("c16::c16_static_vec_history_deep_a", covers=2, timeout=5400, mem_gb=14, tiers=("thorough",),
+          what="StaticVec<Tracked,N>: symbolic history of push/pop/insert/remove vs model; exactly-once drops",
+          bounds="unwind 9; CAP 3"),
+        H("c16::c16_static_vec_history_deep_b", covers=2, timeout=5400, mem_gb=14, tiers=("thorough",),
+          what="StaticVec<Tracked,N>: symbolic history of push/truncate/clear/extend_from_slice/resize_with vs model; drops",
+          bounds="unwind 9; CAP 3"),
+        H("c16::c16_relocatable_vec_history_a", covers=2, timeout=1500, mem_gb=8, tiers=("quick",),
+          what="RelocatableVec<Tracked> over a bump allocator in the same block: symbolic history of push/pop/insert/remove vs model; exactly-once drops",
+          bounds="unwind 9; CAP 2"),
+        H("c16::c16_relocatable_vec_history_b", covers=2, timeout=1500, mem_gb=8, tiers=("quick",),
+          what="RelocatableVec<Tracked> over a bump allocator in the same block: symbolic history of push/truncate/clear/extend_from_slice/resize_with vs model; drops",
+          bounds="unwind 9; CAP 2"),
+        H("c16::c16_relocatable_vec_history_deep_a", covers=2, timeout=5400, mem_gb=14, tiers=("thorough",),
+          what="RelocatableVec<Tracked> over a bump allocator in the same block: symbolic history of push/pop/insert/remove vs model; exactly-once drops",
+          bounds="unwind 9; CAP 3"),
+        H("c16::c16_relocatable_vec_history_deep_b", covers=2, timeout=5400, mem_gb=14, tiers=("thorough",),
+          what="RelocatableVec<Tracked> over a bump allocator in the same block: symbolic history of push/truncate/clear/extend_from_slice/resize_with vs model; drops",
+          bounds="unwind 9; CAP 3"),
+        H("c16::c16_polymorphic_vec_history_a", covers=2, timeout=1500, mem_gb=8, tiers=("quick",),
+          what="PolymorphicVec<Tracked> over the bb pool allocator: symbolic history of push/pop/insert/remove vs model; exactly-once drops + try_clone, memory give-back",
+          bounds="unwind 9; CAP 2"),
+        H("c16::c16_polymorphic_vec_history_b", covers=2, timeout=1500, mem_gb=8, tiers=("quick",),
+          what="PolymorphicVec<Tracked> over the bb pool allocator: symbolic history of push/truncate/clear/extend_from_slice/resize_with vs model; drops + try_clone, memory give-back",
+          bounds="unwind 9; CAP 2"),
+        H("c16::c16_polymorphic_vec_history_deep_a", covers=2, timeout=5400, mem_gb=14, tiers=("thorough",),
+          what="PolymorphicVec<Tracked> over the bb pool allocator: symbolic history of push/pop/insert/remove vs model; exactly-once drops + try_clone, memory give-back",
+          bounds="unwind 9; CAP 3"),
+        H("c16::c16_polymorphic_vec_history_deep_b", covers=2, timeout=5400, mem_gb=14, tiers=("thorough",),
+          what="PolymorphicVec<Tracked> over the bb pool allocator: symbolic history of push/truncate/clear/extend_from_slice/resize_with vs model; drops + try_clone, memory give-back",
+          bounds="unwind 9; CAP 3"),
         H("c16::c16_fixed_size_queue_history", covers=2, timeout=1200, mem_gb=6, tiers=("quick",),
           what="FixedSizeQueue/RelocatableQueue<Tracked>: push/pop/push_with_overflow/clear/peek vs FIFO model; drops",
-          bounds="unwind 22; CAP 2, 4 steps"),
+          bounds="unwind 9; CAP 2, 4 steps"),
         H("c16::c16_fixed_size_queue_history_deep", covers=2, timeout=3600, mem_gb=12, tiers=("thorough",),
-          what="FixedSizeQueue<Tracked,3>, 6 steps", bounds="unwind 22; CAP 3, 6 steps"),
+          what="FixedSizeQueue<Tracked,3>, 6 steps", bounds="unwind 9; CAP 3, 6 steps"),
         H("c16::c16_owning_queue_history", covers=2, timeout=1200, mem_gb=6,
-          what="heap-backed Queue<Tracked>", bounds="unwind 22; CAP 2, 4 steps"),
+          what="heap-backed Queue<Tracked>", bounds="unwind 9; CAP 2, 4 steps"),
         H("c16::c16_queue_get", covers=1, timeout=900, mem_gb=4,
           what="FixedSizeQueue<u8,3>::get(i) for every fill level / ring phase", bounds="unwind 8; 5 steps"),
     ],
 }
+
+_c19 = []
+for (n, ty) in [("file_name", "FileName"), ("path", "Path"), ("file_path", "FilePath"), ("user_name", "UserName"),
+                ("group_name", "GroupName"), ("base64url", "Base64Url"), ("restricted", "RestrictedFileName<2>")]:
+    _c19.append(H("c19::c19_%s_new" % n, covers=2, timeout=1500, mem_gb=5, tiers=("quick",),
+                  what="%s::new accepts exactly the documented names and round-trips them" % ty,
+                  bounds="unwind 8; all byte strings of length <= 3 over the full byte range"))
+    _c19.append(H("c19::c19_%s_new_4" % n, covers=2, timeout=3600, mem_gb=10, tiers=("thorough",),
+                  what="%s::new, length <= 4" % ty, bounds="unwind 8; all byte strings of length <= 4"))
+_GROUPS = {0: "insert/push", 1: "remove, pop, truncate", 2: "remove_range, strip_prefix, strip_suffix", 3: "retain"}
+for (n, ty, groups) in [("file_name", "FileName", (0, 1, 2, 3)), ("file_path", "FilePath", (0, 1, 2, 3)),
+                        ("path", "Path", (0, 1, 2, 3)), ("restricted", "RestrictedFileName<2>", (0, 1, 2, 3)),
+                        ("user_name", "UserName", (0, 1)), ("base64url", "Base64Url", (1,))]:
+    for g in groups:
+        _c19.append(H("c19::c19_%s_edit_g%d" % (n, g), covers=2, timeout=1800, mem_gb=8,
+                      what="%s: one symbolic %s on an arbitrary accepted value either is refused without change or "
+                           "yields the model result, which is itself acceptable" % (ty, _GROUPS[g]),
+                      bounds="unwind 8; start value length <= 2 (FilePath g1-g3: <= 3), all bytes, all indices"))
+for g in (0, 1, 2, 3):
+    _c19.append(H("c19::c19_file_name_edit_g%d_3" % g, covers=2, timeout=3600, mem_gb=12, tiers=("thorough",),
+                  what="FileName: %s, start value length <= 3" % _GROUPS[g], bounds="unwind 8; start length <= 3"))
+_c19.append(H("c19::c19_file_name_find_rfind", covers=1, timeout=1500, mem_gb=6,
+              what="SemanticString::find/rfind vs model search", bounds="unwind 8; length <= 4, one byte needle"))
+_c19.append(H("c19::c19_file_path_compose", covers=1, timeout=1500, mem_gb=6,
+              what="FilePath::from_path_and_file keeps directory and file parts, file_name() round-trips",
+              bounds="unwind 10; path length <= 3, file length <= 2"))
+
+PROPS["C19"] = {
+    "bounds": "byte strings of length <= 3 (quick) / <= 4 (thorough) over the full byte range for FileName, "
+              "RestrictedFileName<2>, Path, FilePath, UserName, GroupName, Base64Url; one editing operation from "
+              "every accepted start value of length <= 2 (quick) / <= 3 (thorough)",
+    "outside": "strings longer than 4 bytes (in particular the behaviour at the 255 byte capacity limit); Windows "
+               "rules; ServiceName/NodeName and the config/naming-scheme layer of the iceoryx2 crate; everything that "
+               "turns names into files on disk (directory listing, cleanup)",
+    "assumptions": ["the specification predicates in c19.rs are written from the documentation of the types: code "
+                    "points < 128 without NUL, per-type forbidden bytes, per-type forbidden contents"],
+    "harnesses": _c19,
+}
+
+# ---- claim texts (MANIFEST.json) --------------------------------------------------------------
+_BMC = ("bounded model checking of the real iceoryx2 code: CBMC decides every assertion for all values of the symbolic "
+        "inputs, operation sequences and (where stated) schedules inside the bounds listed in the evidence file; "
+        "nothing is sampled; outside the bounds nothing is claimed")
+
+PROPS["C15"].update({
+    "level_text": _BMC + ". Decides in-bounds / aligned / disjoint / exact failure conditions / reuse for the bb pool, "
+                  "bump and one-chunk allocators and the cal shm allocators on symbolic segments and layouts, plus the "
+                  "chunk-layout arithmetic via MIR->SMT. Growth of a dynamic segment under a live subscriber (port layer) "
+                  "is outside the claim.",
+    "level_note": "trusted: Kani/CBMC, rustc MIR, z3/cvc5; assumes SC memory, no allocation failure, logging stubs; "
+                  "segment <= 56 bytes, 3-4 operations",
+})
+PROPS["C16"].update({
+    "level_text": _BMC + ". Symbolic operation histories on StaticVec / RelocatableVec / PolymorphicVec, Queue / "
+                  "FixedSizeQueue (incl. overflowing push), SlotMap, FlatMap and the string types against array-backed "
+                  "reference models, with a drop tracker proving exactly-once drop and no access after drop.",
+    "level_note": "capacity <= 3, histories <= 6 operations, u8 values; reference models are part of the trusted base "
+                  "(<= 30 lines each)",
+})
+PROPS["C19"].update({
+    "level_text": _BMC + ". For every semantic string type of bb/system-types: accept-iff-documented-rule and "
+                  "round-trip for all byte strings up to the bound, and every editing operation keeps an accepted "
+                  "value acceptable and equal to the model; FilePath composition; (cal) path_for/extract_name "
+                  "domain isolation for symbolic prefixes and suffixes.",
+    "level_note": "strings <= 4 bytes; the specification predicates in c19.rs are trusted; ServiceName/NodeName, config "
+                  "and directory listing are outside the claim",
+})
+
+# properties whose checks are still being stabilised are not claimed in MANIFEST.json yet
+NOT_READY = ["C16", "C19"]
+for _p in NOT_READY:
+    if _p in PROPS:
+        PROPS[_p]["claimed"] = False
